@@ -13,6 +13,21 @@ type OrderedViolations struct {
 	r  *Run
 	mu sync.Mutex
 	v  []orderedViolation
+	s  []orderedSample
+}
+
+type orderedSample struct {
+	id string
+	v  interface{}
+}
+
+// AddSample buffers a sample; Flush hands the samples to the Run sorted by id.
+func (o *OrderedViolations) AddSample(id string, v interface{}) {
+	o.mu.Lock()
+	if len(o.s) < 4096 {
+		o.s = append(o.s, orderedSample{id, v})
+	}
+	o.mu.Unlock()
 }
 
 type orderedViolation struct {
@@ -41,7 +56,13 @@ func (o *OrderedViolations) Flush() {
 	o.mu.Lock()
 	v := o.v
 	o.v = nil
+	sm := o.s
+	o.s = nil
 	o.mu.Unlock()
+	sort.SliceStable(sm, func(a, b int) bool { return sm[a].id < sm[b].id })
+	for _, x := range sm {
+		o.r.Sample(x.v)
+	}
 	sort.SliceStable(v, func(a, b int) bool {
 		ra, rb := v[a].rank, v[b].rank
 		for i := 0; i < len(ra) && i < len(rb); i++ {
